@@ -597,8 +597,12 @@ def oracle_c09(ctx, budget_s):
                 except O.CallTimeout:
                     break
                 except Exception as e:
-                    report(ctx, "exception", case, "%s raised %s" % (name, type(e).__name__), None,
-                           known_for(case.regs, "C09", ("random-exception:" if name != "IterateSATGen" else "sat-exception:") + type(e).__name__))
+                    # IterateGen hands the design to either back end: an exception it raises carries the signature of
+                    # the one that ran
+                    kinds = {"IterateSATGen": ["sat-exception:"], "RandomGen": ["random-exception:"],
+                             "IterateGen": ["sat-exception:", "random-exception:"]}[name]
+                    known = next((k for k in (known_for(case.regs, "C09", pre + type(e).__name__) for pre in kinds) if k), None)
+                    report(ctx, "exception", case, "%s raised %s" % (name, type(e).__name__), None, known)
                     break
                 ctx.count("C09." + name)
                 got = multiset(exps_to_seqs(ctx, case, exps, name))
@@ -692,37 +696,43 @@ def perturb(rng, desc, seq):
     return out
 
 
-def oracle_c04_latin(ctx, budget_s):
+def oracle_c04_latin(ctx, budget_s, prop="C04", strategies=("RandomGen",)):
     """The same for RandomGen (which enforces LatinSquare by rejection), plus LatinSquare over two uncrossed factors
-    beside a crossed third one, the smaller factor listed first."""
-    oracle_c01_latin(ctx, budget_s, strats=("RandomGen",), prop="C04")
+    beside a crossed third one, the smaller factor listed first, also with a last run that is cut short."""
+    oracle_c01_latin(ctx, budget_s, strats=strategies, prop=prop)
     if ctx.failures:
         return
-    for shape in ((2, 3), (3, 2), (2, 4)):
-        fs = [sp.Factor("F%d" % i, ["l%d_%d" % (i, j) for j in range(n)]) for i, n in enumerate(shape)]
-        other = sp.Factor("G", ["g1", "g2"])
-        N = max(shape)
-        total = 2 * N
-        try:
-            blk = quiet(sp.CrossBlock, fs + [other], [other], [sp.LatinSquare(fs), sp.MinimumTrials(total)])
-            exps = O.synth(blk, 6, "RandomGen", timeout=30)
-        except O.CallTimeout:
-            continue
-        except Exception as e:
-            ctx.fail("C04: RandomGen raised %s for a LatinSquare over uncrossed factors with level counts %s" % (type(e).__name__, shape),
-                     {"kind": "latin-uncrossed", "shape": list(shape)})
-            return
-        ctx.count("C04.latin-uncrossed")
-        ctx.case(("C04latin-uncrossed", shape), True)
-        for e in exps:
-            T = len(e["F0"])
-            for s0 in range(0, T - T % N, N):
-                for i, n in enumerate(shape):
-                    if len(set(e["F%d" % i][s0:s0 + N])) != n:
-                        ctx.fail("C04: LatinSquare over uncrossed factors with level counts %s (RandomGen): trials %d..%d do not show "
-                                 "every level of F%d in %s" % (shape, s0, s0 + N - 1, i, json.dumps(e)[:300]),
-                                 {"kind": "latin-uncrossed", "shape": list(shape)})
-                        return
+    for shape, extra in (((2, 3), 0), ((3, 2), 0), ((2, 4), 0), ((2, 2), 1), ((2, 3), 2)):
+        for strat in strategies:
+            fs = [sp.Factor("F%d" % i, ["l%d_%d" % (i, j) for j in range(n)]) for i, n in enumerate(shape)]
+            other = sp.Factor("G", ["g1", "g2"])
+            N = max(shape)
+            total = 2 * N + extra          # extra > 0: the last run of N trials is cut short
+            try:
+                blk = quiet(sp.CrossBlock, fs + [other], [other], [sp.LatinSquare(fs), sp.MinimumTrials(total)])
+                exps = O.synth(blk, 6, strat, timeout=30)
+            except O.CallTimeout:
+                continue
+            except Exception as e:
+                ctx.fail("%s: %s raised %s for a LatinSquare over uncrossed factors with level counts %s, %d trials" % (
+                    prop, strat, type(e).__name__, shape, total), {"kind": "latin-uncrossed", "shape": list(shape), "prop": prop})
+                return
+            ctx.count(prop + ".latin-uncrossed")
+            ctx.case((prop + "latin-uncrossed", shape, extra, strat), True)
+            for e in exps:
+                T = len(e["F0"])
+                for s0 in range(0, T - T % N, N):
+                    for i, n in enumerate(shape):
+                        if len(set(e["F%d" % i][s0:s0 + N])) != n:
+                            ctx.fail("%s: LatinSquare over uncrossed factors with level counts %s (%s): trials %d..%d do not show "
+                                     "every level of F%d in %s" % (prop, shape, strat, s0, s0 + N - 1, i, json.dumps(e)[:300]),
+                                     {"kind": "latin-uncrossed", "shape": list(shape), "prop": prop})
+                            return
+
+
+def oracle_c08_latin(ctx, budget_s):
+    """No strategy may raise on LatinSquare designs, whole or partial last run."""
+    oracle_c04_latin(ctx, budget_s, prop="C08", strategies=("RandomGen", "IterateSATGen"))
 
 
 def oracle_c01_latin(ctx, budget_s, strats=("IterateSATGen", "CMSGen"), prop="C01"):
@@ -930,8 +940,15 @@ def replay_design(ctx, r):
         else:
             oracle_c01_latin(ctx, 60)
         return
+    if r.get("kind") == "reuse-probe":
+        from . import oracles_design2 as OD2
+        OD2.reuse_probe(ctx, r.get("prop", "C24"))
+        return
     if r.get("kind") == "latin-uncrossed":
-        oracle_c04_latin(ctx, 60)
+        if r.get("prop") == "C08":
+            oracle_c08_latin(ctx, 60)
+        else:
+            oracle_c04_latin(ctx, 60)
         return
     case = O.Case(ctx, r["desc"])
     if not case.build():
